@@ -56,7 +56,7 @@ class Subscription:
     topics = {"t"}
 
 
-def check(n_assignors=2, member_id_required=False, leader=False, rejoin_during_sync=False):
+def check(n_assignors=2, member_id_required=False, leader=False, rejoin_during_sync=False, sync_error=0):
     from types import SimpleNamespace as NS
     from aiokafka.consumer.group_coordinator import CoordinatorGroupRebalance
     from aiokafka.coordinator.assignors.range import RangePartitionAssignor
@@ -71,7 +71,7 @@ def check(n_assignors=2, member_id_required=False, leader=False, rejoin_during_s
         return f
 
     def sync_reply(req):
-        return NS(error_code=0, member_assignment=b"assignment")
+        return NS(error_code=sync_error, member_assignment=b"assignment")
 
     async def run():
         script = []
@@ -83,11 +83,23 @@ def check(n_assignors=2, member_id_required=False, leader=False, rejoin_during_s
         if rejoin_during_sync:
             coord.on_sync_in_flight = lambda c: c.request_rejoin()
         rb = CoordinatorGroupRebalance(coord, "g", 0, Subscription(), assignors, 10000, 100)
-        res = await rb.perform_group_join()
+        try:
+            res = await rb.perform_group_join()
+        except Exception as e:
+            if not sync_error:
+                raise
+            res = e                       # a fatal group error (e.g. authorization) goes to the caller
         return coord, res
 
     coord, res = asyncio.run(run())
     problems = []
+    if sync_error:
+        # the sync failed: whatever the code - also one that only means "look the coordinator up again" - a rejoin is pending
+        # afterwards (a member that re-joined holds its old assignment: need_rejoin() is false without the trigger, its
+        # heartbeat task is stopped, nothing would ever make it join again)
+        if res is None and not coord._rejoin_needed_fut.done():
+            problems.append("SyncGroup answered with error %d: the join attempt failed and no rejoin is pending" % sync_error)
+        return problems, [type(r).__name__ for r in coord.sent]
     kinds = [type(r).__name__ for r in coord.sent]
     names = [a.name for a in assignors]
     granted = False
@@ -125,6 +137,13 @@ def sweep():
                     problems, kinds = check(n, mir, leader, rds)
                     for p in problems:
                         bad.append("assignors=%d member_id_required=%s leader=%s rejoin_during_sync=%s: %s" % (n, mir, leader, rds, p))
+    # REBALANCE_IN_PROGRESS, UNKNOWN_MEMBER_ID, ILLEGAL_GENERATION, COORDINATOR_NOT_AVAILABLE, NOT_COORDINATOR,
+    # COORDINATOR_LOAD_IN_PROGRESS, GROUP_AUTHORIZATION_FAILED, an error the function does not name
+    for code in (27, 25, 22, 15, 16, 14, 30, 2):
+        for leader in (False, True):
+            problems, kinds = check(1, False, leader, False, sync_error=code)
+            for p in problems:
+                bad.append("leader=%s: %s" % (leader, p))
     return bad
 
 
